@@ -30,6 +30,13 @@ func main() {
 		checkMain(os.Args[2:])
 		return
 	}
+	if len(os.Args) > 1 && os.Args[1] == "all" {
+		fs := flag.NewFlagSet("all", flag.ExitOnError)
+		repo := fs.String("repo", "/repo", "repository root")
+		verif := fs.String("verif", "/verif", "verif directory")
+		fs.Parse(os.Args[2:])
+		os.Exit(gvc.RunAll(*repo, *verif))
+	}
 	if len(os.Args) > 2 && os.Args[1] == "replay" {
 		repo := os.Getenv("VERIF_REPO")
 		if repo == "" {
@@ -51,6 +58,13 @@ func main() {
 	if err != nil {
 		fmt.Println("load error:", err)
 		os.Exit(2)
+	}
+	pfx := ""
+	if strings.Contains(*tags, "tinywasm") {
+		pfx = "tinywasm:"
+	}
+	for _, n := range w.ApplyLocalsLock("/verif/locals.lock", pfx) {
+		fmt.Println("NOTE:", n)
 	}
 	w.InitSpecs()
 	for _, e := range w.Errors {
